@@ -5,7 +5,7 @@ use super::*;
 use crate::ttl::verif_harness::{self as th, any_duration, created, deadline, em_count_key, em_from, em_listed, em_total, time_at, EmGhost};
 use crate::verif_env::{clock, HS};
 use crate::verif_nd::{self as nd, harness, vassert, vcover};
-use std::sync::atomic::{AtomicUsize, Ordering};
+use std::sync::atomic::{AtomicU64, AtomicUsize, Ordering};
 use std::time::Duration;
 
 #[cfg(kani)]
@@ -26,13 +26,20 @@ pub(crate) struct NdValidator {
     pub calls: AtomicUsize,
     pub forced: Option<bool>,
     pub last: AtomicUsize,
+    /// the arguments of the last call, in the order they were passed
+    pub prev: AtomicU64,
+    pub curr: AtomicU64,
 }
 impl NdValidator {
     pub fn new(forced: Option<bool>) -> Self {
-        Self { calls: AtomicUsize::new(0), forced, last: AtomicUsize::new(2) }
+        Self { calls: AtomicUsize::new(0), forced, last: AtomicUsize::new(2), prev: AtomicU64::new(0), curr: AtomicU64::new(0) }
     }
     pub fn calls(&self) -> usize {
         self.calls.load(Ordering::SeqCst)
+    }
+    /// (previous, new) as passed to the last call
+    pub fn args(&self) -> (u64, u64) {
+        (self.prev.load(Ordering::SeqCst), self.curr.load(Ordering::SeqCst))
     }
     /// answer of the last call: Some(true/false), None if never called
     pub fn last(&self) -> Option<bool> {
@@ -45,8 +52,10 @@ impl NdValidator {
 }
 impl UpdateValidator for NdValidator {
     type Value = u64;
-    fn should_update(&self, _prev: &u64, _curr: &u64) -> bool {
+    fn should_update(&self, prev: &u64, curr: &u64) -> bool {
         self.calls.fetch_add(1, Ordering::SeqCst);
+        self.prev.store(*prev, Ordering::SeqCst);
+        self.curr.store(*curr, Ordering::SeqCst);
         let a = match self.forced {
             Some(b) => b,
             None => nd::any_bool(),
@@ -252,6 +261,9 @@ fn store_step(op: u8, ttl: u8, forced: Option<bool>, em: bool) {
         vassert!(raw(&s, o.key) == Some(o), "the entry of every other key is untouched");
     }
     vassert!(s.validator.calls() <= 1, "validator consulted at most once");
+    if s.validator.calls() == 1 {
+        vassert!(subj.is_some() && s.validator.args() == (subj.unwrap().val, v), "the validator is asked about (resident value, incoming value) of the addressed key, in that order");
+    }
     if em {
         // I-EM for the addressed key: filed under its current deadline bucket (with its conflict)
         // iff resident with a TTL; not filed under the previous bucket any more
